@@ -68,36 +68,43 @@ Definition creator_level : Z := 100.
 
 (** ** String-typed power levels (ruma-common/src/serde/strings.rs:133-198) *)
 
+Definition plus : N := 43.
+Definition minus : N := 45.
+
 (** [u64::from_str]: optional '+', then one or more digits; no '-'. *)
 Definition parse_unsigned (s : str) : option Z :=
   match s with
-  | 43 :: r => parse_digits r
-  | _ => parse_digits s
+  | b :: r => if b =? plus then parse_digits r else parse_digits s
+  | [] => None
   end.
 
 (** [i64::from_str]: optional '+' or '-', then one or more digits.  Overflow of the machine
     type is subsumed by the [js_int] range check that follows. *)
 Definition parse_signed (s : str) : option Z :=
   match s with
-  | 43 :: r => parse_digits r
-  | 45 :: r => option_map Z.opp (parse_digits r)
-  | _ => parse_digits s
+  | b :: r =>
+      if b =? plus then parse_digits r
+      else if b =? minus then option_map Z.opp (parse_digits r)
+      else parse_digits s
+  | [] => None
   end.
 
 Definition check_range (ok : Z -> bool) (o : option Z) : option Z :=
   match o with Some z => if ok z then Some z else None | None => None end.
 
-(** [visit_str] (strings.rs:185-193, after the repair): trim; a leading '+' selects the
+(** [visit_str] (strings.rs:185-197, after the repair): trim; a leading '+' selects the
     [UInt] parser, which must not see a second sign; otherwise [Int::from_str]. *)
 Definition parse_v1_string (s : str) : option Z :=
   let t := trim s in
   match t with
-  | 43 :: w =>
-      match w with
-      | 43 :: _ => None
-      | _ => check_range in_uint_range (parse_unsigned w)
-      end
-  | _ => check_range in_int_range (parse_signed t)
+  | b :: w =>
+      if b =? plus then
+        match w with
+        | b2 :: _ => if b2 =? plus then None else check_range in_uint_range (parse_unsigned w)
+        | [] => check_range in_uint_range (parse_unsigned w)
+        end
+      else check_range in_int_range (parse_signed t)
+  | [] => check_range in_int_range (parse_signed t)
   end.
 
 (** One power-level value (power_levels.rs:102-106): [from_json_value::<Int>] when
